@@ -31,7 +31,8 @@ def r4_output_store(ctx):
     for fi, node, kind, det in scan().attr_sites("outputs", ("cascade.controller", "cascade.scheduler")):
         if kind in ("substore", "submutcall", "mutcall", "store", "aug", "subdel", "del"):
             n += 1
-            if fi.qual != f"{NOTIFY}.notify":
+            from .common import helper_of as _helper_of
+            if fi.qual != f"{NOTIFY}.notify" and not _helper_of(repo, fi.qual, {f"{NOTIFY}.notify"}):
                 ctx.violation("C01.R4", fi.qual, loc(fi, node), "writer of State.outputs",
                               f"{fi.qual} writes State.outputs ({kind}); only the payload branch of notify may bind a requested output")
             else:
@@ -66,7 +67,8 @@ def r5_commands(ctx):
     are sent to the source host's data server."""
     repo = ctx.repo
     D = ds("D", "T")
-    env = {"self.sender.hosts": {"data.H1": ("sock1", "addr-H1"), "data.H2": ("sock2", "addr-H2"), "H1": ("s", "m1"), "H2": ("s", "m2")},
+    from .common import host_entry as he
+    env = {"self.sender.hosts": {"data.H1": he(repo, "sock1", "addr-H1"), "data.H2": he(repo, "sock2", "addr-H2"), "H1": he(repo, "s", "m1"), "H2": he(repo, "s", "m2")},
            "self.mlistener.address": "ctrl-addr", "self.transmit_idx_counter": 5}
     for meth, args, want in (
         ("transmit", {"ds": D, "source": "H1", "target": "H2"}, {"source": "H1", "target": "H2", "daddress": "addr-H2", "ds": D, "idx": 5}),
